@@ -111,8 +111,9 @@ Concrete(c) == {d \in ClassNames : IsReg(d) /\ ~Cls(d).abstract /\ IsSubclass(d,
 
 \* a default value of the catalogue materialised as (possibly nested) objects:
 \* defaults are scalars or None in the catalogue
-DefaultObj(d) == Obj(IF d[1] = "null" THEN "null" ELSE d[1], "",
-                     IF d[1] = "null" THEN "null" ELSE d[2], <<>>)
+DefaultObj(d) == IF d[1] = "strlike" THEN Obj("strlike", d[2], d[3], <<>>)
+                 ELSE Obj(IF d[1] = "null" THEN "null" ELSE d[1], "",
+                          IF d[1] = "null" THEN "null" ELSE d[2], <<>>)
 
 GenObject ==
     /\ CanGen /\ TopOb.t[1] = "class"
@@ -276,6 +277,24 @@ DashKeys(h, kids, i) ==
     IF i > Len(kids) THEN h
     ELSE DashKeys([h EXCEPT ![kids[i]].v = Dash(h[kids[i]].v)], kids, i + 2)
 
+\* Node.index_attribute_to_map(attr, key_attribute, value_attribute): the key
+\* attribute is filtered out of every inner mapping (in place); an inner mapping
+\* left with the value attribute alone is replaced by that value
+RECURSIVE DropKey(_, _, _, _)
+DropKey(h, c, i, keyattr) ==
+    IF i > Len(c) THEN <<>>
+    ELSE (IF h[c[i]].k = "s" /\ h[c[i]].v = keyattr THEN <<>> ELSE <<c[i], c[i + 1]>>)
+         \o DropKey(h, c, i + 2, keyattr)
+RECURSIVE IndexToMapFold(_, _, _, _, _, _)
+IndexToMapFold(h, kids, i, keyattr, valattr, acc) ==
+    IF i > Len(kids) THEN [h |-> h, c |-> acc]
+    ELSE LET inner == kids[i + 1]
+             f == DropKey(h, h[inner].c, 1, keyattr)
+             h1 == [h EXCEPT ![inner].c = f]
+             collapse == valattr # "" /\ Len(f) = 2 /\ h[f[1]].k = "s" /\ h[f[1]].v = valattr IN
+         IndexToMapFold(h1, kids, i + 2, keyattr, valattr,
+                        acc \o <<kids[i], IF collapse THEN f[2] ELSE inner>>)
+
 \* sweeten effects
 ApplySweeten(h, n, e) ==
     CASE e[1] = "remove_defaults" ->
@@ -291,6 +310,14 @@ ApplySweeten(h, n, e) ==
             IF h[n].k = "m" /\ KeyPos(h, n, e[2]) # {}
             THEN ER(Append(h, Node("s", "str", h[AttrVal(h, n, e[2])].v, <<>>)), NewId(h), "")
             ELSE ER(h, n, "")
+      [] e[1] = "index_to_map" ->
+            IF h[n].k # "m" \/ KeyPos(h, n, e[2]) = {} THEN ER(h, n, "")
+            ELSE IF ~AttrUnique(h, n, e[2]) THEN ER(h, n, "Other:SeasoningError")
+            ELSE LET av == AttrVal(h, n, e[2]) IN
+                 IF h[av].k # "m" \/ \E i \in DOMAIN h[av].c : i % 2 = 0 /\ h[h[av].c[i]].k # "m"
+                 THEN ER(h, n, "")
+                 ELSE LET r == IndexToMapFold(h, h[av].c, 1, e[3], e[4], <<>>) IN
+                      ER([r.h EXCEPT ![av].c = r.c], n, "")
       [] OTHER -> ApplyEffect(h, n, e)
 
 \* after sweetening, the registry entry of the object is pointed to the
